@@ -210,6 +210,10 @@ class ExonCorrector:
 
             i = event.read_region[1] + 1
 
+        if -len(corrected_introns) - 1 in event_map:
+            # fake IR in the last read exon (its key is never met by the loop over the read introns)
+            new_introns.append(isoform_introns[event_map[-len(corrected_introns) - 1].isoform_region[0]])
+
         return corrected_read_region, new_introns
 
 
